@@ -9,6 +9,32 @@ use crate::{common::ident_index::IdentOrIndex, Trait};
 
 pub struct DebugStructHandler;
 
+/// The value handed to the builder for a field that is formatted by its own `Debug`.
+///
+/// The last field of a struct may be unsized, and only a sized value coerces to `&dyn Debug`: it is passed behind a
+/// sized wrapper which formats exactly like the field. (`&&self.field` would do for the coercion, but the `&FieldTy: Debug`
+/// it needs can be captured by the where-predicate of another field whose type is a reference.)
+#[inline]
+fn field_value(field_name: &IdentOrIndex, last: bool) -> proc_macro2::TokenStream {
+    if last {
+        quote!(&{
+            #[allow(non_camel_case_types)]
+            struct Educe__DebugLast<'a, T: ?::core::marker::Sized>(&'a T);
+
+            impl<'a, T: ?::core::marker::Sized + ::core::fmt::Debug> ::core::fmt::Debug for Educe__DebugLast<'a, T> {
+                #[inline]
+                fn fmt(&self, f: &mut ::core::fmt::Formatter<'_>) -> ::core::fmt::Result {
+                    ::core::fmt::Debug::fmt(self.0, f)
+                }
+            }
+
+            Educe__DebugLast(&self.#field_name)
+        })
+    } else {
+        quote!(&self.#field_name)
+    }
+}
+
 impl TraitHandler for DebugStructHandler {
     fn trait_meta_handler(
         ast: &DeriveInput,
@@ -94,11 +120,12 @@ impl TraitHandler for DebugStructHandler {
                     } else {
                         debug_types.push(ty);
 
-                        // `&&`: the last field may be unsized, and only a sized value coerces to `&dyn Debug`
+                        let value = field_value(&field_name, index + 1 == data.fields.len());
+
                         builder_token_stream.extend(if name.is_some() {
-                            quote! (builder.field(stringify!(#key), &&self.#field_name);)
+                            quote! (builder.field(stringify!(#key), #value);)
                         } else {
-                            quote! (builder.entry(&Educe__RawString(stringify!(#key)), &&self.#field_name);)
+                            quote! (builder.entry(&Educe__RawString(stringify!(#key)), #value);)
                         });
                     }
 
@@ -140,7 +167,9 @@ impl TraitHandler for DebugStructHandler {
                     } else {
                         debug_types.push(ty);
 
-                        builder_token_stream.extend(quote! (builder.field(&&self.#field_name);));
+                        let value = field_value(&field_name, index + 1 == data.fields.len());
+
+                        builder_token_stream.extend(quote! (builder.field(#value);));
                     }
 
                     has_fields = true;
